@@ -138,13 +138,13 @@ Section Builds.
     snd (dom_nested rec st nm len1) = Ok len2 -> forall z, len1 = Some z -> len2 = Some z.
   Proof.
     unfold dom_nested. intros H z ->. destruct (starred nm).
-    - destruct (Z.eqb z 0); [cbn in H; congruence|].
+    - 
       destruct (rec st (cname_of nm) None) as [s1 [o b|k e]].
-      + destruct (obj_len (heap s1) o); cbn in H; [|discriminate]. destruct (Z.eqb a z); cbn in H; congruence.
+      + destruct (obj_length (heap s1) o); cbn in H; [|discriminate]. destruct (Z.eqb a z); cbn in H; congruence.
       + destruct (is_singleton_err k); cbn in H; congruence.
-    - destruct (Z.eqb z 0); [cbn in H; congruence|].
+    - 
       destruct (rec st (cname_of nm) None) as [s1 [o b|k e]].
-      + destruct (obj_len (heap s1) o); cbn in H; [|discriminate].
+      + destruct (obj_length (heap s1) o); cbn in H; [|discriminate].
         destruct (rec (collect s1) (cname_of nm) (Some z)) as [s2 [o2 b2|k2 e2]]; cbn in H; [congruence|].
         destruct (is_singleton_err k2); cbn in H; [|discriminate]. destruct (Z.eqb a z); congruence.
       + destruct (is_singleton_err k); cbn in H; congruence.
